@@ -438,9 +438,12 @@ type filterOutcome struct {
 
 func evalFilterRow(f *btpb.RowFilter, row ORow) filterOutcome {
 	cells := row.Cells // order of the unfiltered read
+	// every assignment of every sample node (the generator stays far below 2^12 assignments;
+	// the count is never capped silently: an unvisited assignment would make the oracle reject
+	// a correct answer)
 	k := countSamples(f)
-	if k > 4 {
-		k = 4
+	if k > 12 {
+		harnessErr("filter with %d row_sample nodes: the generator must not produce more than 12", k)
 	}
 	var fo filterOutcome
 	for mask := 0; mask < 1<<uint(k); mask++ {
@@ -482,6 +485,7 @@ type filterGen struct {
 	invalid  bool // allow invalid arguments
 	forceInv int  // 0 draw, 1 valid, 2 invalid (directed leaves)
 	sample   bool // allow row_sample
+	nSamples int  // row_sample nodes generated so far (reset per filter by the caller; at most 8 per generator otherwise)
 }
 
 func (g *filterGen) targets(kind int) []string {
@@ -666,7 +670,8 @@ func (g *filterGen) leaf(d0 *draws, kind int, countSensitiveOK bool) *btpb.RowFi
 	case 13:
 		return &btpb.RowFilter{Filter: &btpb.RowFilter_ApplyLabelTransformer{ApplyLabelTransformer: []string{"lab", "a-1", "0", "abcdefghijklmno"}[d.n(4)]}}
 	case 14:
-		if g.sample {
+		if g.sample && g.nSamples < 8 { // the oracle enumerates every assignment of the sample nodes
+			g.nSamples++
 			p := []float64{0.5, 0.01, 0.99}[d.n(3)]
 			if inv {
 				p = []float64{0, 1, -0.5, 1.5}[d.n(4)]
